@@ -350,6 +350,9 @@ V("returned-value-receiver-by-class", "C19", "pyteal/ast/abi/type.py", "        
 V("named-field-index-reversed", "C07", "pyteal/ast/abi/tuple.py", "            self.__field_index[name] = index\n", "            self.__field_index[name] = len(anns) - 1 - index\n", "R07.9")
 V("flatten-asks-for-fixed-convention", "C11", "pyteal/compiler/flatten.py", "subroutine.get_declaration_by_option(options.use_frame_pointers)", "subroutine.get_declaration_by_option(True)", "R11.9")
 V("twin-flatten-convention-via-local", "C11", "pyteal/compiler/flatten.py", "            dexpr = subroutine.get_declaration_by_option(options.use_frame_pointers)", "            fp = options.use_frame_pointers\n            dexpr = subroutine.get_declaration_by_option(fp)", None, "quiet")
+V("router-clear-map-from-approval-mapper", "C15", "pyteal/ast/router.py", "            clear_sourcemap = self.clear_sourcemapper.get_sourcemap(self.clear_teal)", "            clear_sourcemap = self.approval_sourcemapper.get_sourcemap(self.clear_teal)", "R15.10")
+V("router-clear-compiled-under-approval-filename", "C15", "pyteal/ast/router.py", "                teal_filename=input.clear_filename,", "                teal_filename=input.approval_filename,", "R15.10")
+V("twin-router-results-via-locals", "C15", "pyteal/ast/router.py", "            clear_sourcemap = self.clear_sourcemapper.get_sourcemap(self.clear_teal)", "            mapper = self.clear_sourcemapper\n            clear_sourcemap = mapper.get_sourcemap(self.clear_teal)", None, "quiet")
 V("if-chain-else-unchecked", "C05", "pyteal/ast/if_.py", "            require_type(self.elseBranch, self.thenBranch.type_of())\n\n        return", "            pass\n\n        return", "R05.9")
 V("if-chain-only-plain-else-checked", "C05", "pyteal/ast/if_.py", "            require_type(self.elseBranch, self.thenBranch.type_of())\n\n        return", "            if not isinstance(self.elseBranch, If):\n                require_type(self.elseBranch, self.thenBranch.type_of())\n\n        return", "R05.9")
 V("twin-if-chain-local-type", "C05", "pyteal/ast/if_.py", "            require_type(self.elseBranch, self.thenBranch.type_of())\n\n        return", "            then_type = self.thenBranch.type_of()\n            require_type(self.elseBranch, then_type)\n\n        return", None, "quiet")
